@@ -24,6 +24,7 @@ the same output in A as in B once the line numbers in error messages are mapped 
 import os
 import re
 import errno
+import struct
 import logging
 
 from .. import kernel as K
@@ -1051,12 +1052,31 @@ class _PB(object):
         self.L.append({'lab': lab, 'parts': parts if isinstance(parts, list) else [parts], 'role': role})
 
 
-def _gen_program(rng, tier):
+_EV_MARK = br'EV(key|timer|pen|strig|play)'
+
+
+def _ev_name(e, keyno):
+    return {'key': 'KEY(%d)' % keyno, 'timer': 'TIMER', 'pen': 'PEN', 'strig': 'STRIG(0)', 'play': 'PLAY'}[e]
+
+
+def _gen_program(rng, tier, pause=False):
+    """
+    pause=False: a program that is RUN and probed from direct mode after it stopped.
+    pause=True:  a program with `stages`: trap states are changed (defined only / ON / STOP / OFF / not yet
+    defined), the program pauses at main level (STOP statement or a loop that waits for Ctrl-Break), the user
+    RENUMs and CONTinues, the program switches the traps on, waits for the events, and goes on.
+    """
     pb = _PB(rng)
     R = rng.random
     quick = tier == 'quick'
     have_eh = R() < 0.8
-    evs = [e for e in ('key', 'timer', 'pen', 'strig') if R() < (0.45 if e in ('key', 'timer') else 0.2)]
+    if pause:
+        evs = [e for e in ('key', 'timer', 'pen', 'strig', 'play') if R() < 0.4]
+        if not evs:
+            evs = [rng.choice(['key', 'timer', 'pen', 'strig', 'play'])]
+        rng.shuffle(evs)
+    else:
+        evs = [e for e in ('key', 'timer', 'pen', 'strig') if R() < (0.45 if e in ('key', 'timer') else 0.2)]
     keyno = rng.choice([1, 2, 10, 11])
     handlers_first = R() < 0.45
     nblocks = rng.randint(2, 8) if quick else rng.randint(4, 25)
@@ -1093,10 +1113,12 @@ def _gen_program(rng, tier):
                 pb.add(['PRINT "%s";ERR:RESUME NEXT' % pb.uid('EH2')], lab=eh2, role='eh')
         # event handlers
         for e in evs:
-            if R() < 0.25 and waits:
-                pb.add(['PRINT "%s":F%%=1:RETURN ' % pb.uid('EV' + e), ('@', rng.choice(waits))], lab=evlab[e], role='ev')
+            # staged programs count the traps that ran (their wait loops wait for all of them)
+            flag = 'F%=F%+1' if pause else 'F%=1'
+            if R() < (0.08 if pause else 0.25) and waits:
+                pb.add(['PRINT "%s":%s:RETURN ' % (pb.uid('EV' + e), flag), ('@', rng.choice(waits))], lab=evlab[e], role='ev')
             else:
-                pb.add(['PRINT "%s":F%%=1:RETURN' % pb.uid('EV' + e)], lab=evlab[e], role='ev')
+                pb.add(['PRINT "%s":%s:RETURN' % (pb.uid('EV' + e), flag)], lab=evlab[e], role='ev')
         # subroutines
         for s in subs:
             if R() < 0.3:
@@ -1112,26 +1134,18 @@ def _gen_program(rng, tier):
     save_L = pb.L
     pb.L = []
     # --- main
-    setup = []
-    if have_eh:
-        setup.append(['ON ERROR GOTO ', ('@', eh)])
-    for e in evs:
+    def evdef(e):
         if e == 'key':
-            setup.append(['ON KEY(%d) GOSUB ' % keyno, ('@', evlab[e]), ':KEY(%d) ON' % keyno])
-        elif e == 'timer':
-            setup.append(['ON TIMER(%d) GOSUB ' % rng.choice([1, 2]), ('@', evlab[e]), ':TIMER ON'])
-        elif e == 'pen':
-            setup.append(['ON PEN GOSUB ', ('@', evlab[e]), ':PEN ON'])
-        else:
-            setup.append(['ON STRIG(0) GOSUB ', ('@', evlab[e]), ':STRIG(0) ON'])
-    rng.shuffle(setup)
-    first = True
-    for s in setup:
-        pb.add(s, lab=main if first else None, role='setup')
-        first = False
-    if first:
-        pb.add(['REM main'], lab=main)
-    for _ in range(nblocks):
+            return 'ON KEY(%d) GOSUB ' % keyno
+        if e == 'timer':
+            return 'ON TIMER(%d) GOSUB ' % rng.choice([1, 2])
+        if e == 'pen':
+            return 'ON PEN GOSUB '
+        if e == 'play':
+            return 'ON PLAY(%d) GOSUB ' % rng.choice([1, 2, 3])
+        return 'ON STRIG(0) GOSUB '
+
+    def block():
         r = R()
         if r < 0.12:
             pb.add(['PRINT "%s"' % pb.uid()])
@@ -1187,8 +1201,7 @@ def _gen_program(rng, tier):
             waits.append(wl)
         elif r < 0.96 and evs:
             e = rng.choice(evs)
-            name = {'key': 'KEY(%d)' % keyno, 'timer': 'TIMER', 'pen': 'PEN', 'strig': 'STRIG(0)'}[e]
-            pb.add(['%s %s' % (name, rng.choice(['STOP', 'ON', 'OFF', 'ON']))])
+            pb.add(['%s %s' % (_ev_name(e, keyno), rng.choice(['STOP', 'ON', 'OFF', 'ON']))])
         elif have_eh:
             if eh2 and R() < 0.6:
                 pb.add(['ON ERROR GOTO ', ('@', eh2)])
@@ -1196,6 +1209,105 @@ def _gen_program(rng, tier):
                 pb.add(['ON ERROR GOTO 0'])
         else:
             pb.add(['PRINT "%s"' % pb.uid()])
+
+    stages = []
+
+    def emit(stmts, first, role):
+        """Statements (lists of parts) as one line or as one line each. -> first"""
+        if not stmts:
+            return first
+        if R() < 0.5:
+            joined = []
+            for i, st in enumerate(stmts):
+                joined.extend(([':'] if i else []) + st)
+            stmts = [joined]
+        for st in stmts:
+            pb.add(st, lab=main if first else None, role=role)
+            first = False
+        return first
+
+    if pause:
+        # what the program did to each trap so far: defined?, and the last of ON / STOP / OFF
+        defined = set()
+        first = True
+        nstages = 1 + (R() < 0.4) + (R() < 0.15)
+        per = max(1, nblocks // (2 * nstages))
+        for sn in range(nstages):
+            # --- trap states at the coming pause
+            if sn == 0 and have_eh:
+                first = emit([['ON ERROR GOTO ', ('@', eh)]], first, 'setup')
+            for e in rng.sample(evs, len(evs)):
+                name = _ev_name(e, keyno)
+                dfn = [evdef(e), ('@', evlab[e])]
+                if e not in defined:
+                    st = rng.choice(['def', 'def', 'on', 'on', 'stop', 'stop0', 'off', 'late', 'on-first'])
+                    stmts = {'def': [dfn], 'on': [dfn, [name + ' ON']], 'stop': [dfn, [name + ' ON'], [name + ' STOP']],
+                             'stop0': [dfn, [name + ' STOP']], 'off': [dfn, [name + ' ON'], [name + ' OFF']],
+                             'late': [], 'on-first': [[name + ' ON'], dfn]}[st]
+                    if st != 'late':
+                        defined.add(e)
+                else:
+                    stmts = rng.choice([[], [], [[name + ' OFF']], [[name + ' STOP']], [[name + ' ON']],
+                                        [[name + ' OFF'], dfn], [[name + ' STOP'], [name + ' OFF']]])
+                first = emit(stmts, first, 'setup')
+            if first:
+                pb.add(['REM main'], lab=main)
+                first = False
+            for _ in range(rng.randint(0, per)):
+                block()
+            # --- the pause, at main level
+            st = {'pause': 'stop', 'bl': None}
+            if R() < 0.55:
+                pb.add(['STOP'], role='pause')
+            else:
+                bl = pb.lab()
+                pb.add(['B%=0'])
+                pb.add(['B%%=B%%+1:IF B%%<%d THEN ' % rng.randint(30, 90), ('@', bl)], lab=bl, role='bwait')
+                st = {'pause': 'brk', 'bl': bl}
+            # --- after CONT: traps are switched on, then the program waits for them
+            for e in rng.sample(evs, len(evs)):
+                name = _ev_name(e, keyno)
+                stmts = []
+                if e not in defined:
+                    stmts.append([evdef(e), ('@', evlab[e])])
+                    defined.add(e)
+                if R() < 0.85:
+                    stmts.append([name + ' ON'])
+                emit(stmts, False, 'setup')
+            if 'play' in evs:
+                pb.add(['PLAY "MB%s"' % rng.choice(['L8CDEFGAB', 'T200L4CDEFG', 'O3L16CDEFGABCDE'])])
+            wl = pb.lab()
+            st['wl'] = wl
+            st['n'] = rng.randint(20, 50)
+            pb.add(['W%=0:F%=0'])
+            pb.add(['W%%=W%%+1:IF W%%<%d AND F%%<%d THEN ' % (st['n'], rng.choice([1, len(evs), len(evs)])), ('@', wl)],
+                   lab=wl, role='wait')
+            waits.append(wl)
+            stages.append(st)
+            for _ in range(rng.randint(0, per)):
+                block()
+    else:
+        setup = []
+        if have_eh:
+            setup.append(['ON ERROR GOTO ', ('@', eh)])
+        for e in evs:
+            if e == 'key':
+                setup.append(['ON KEY(%d) GOSUB ' % keyno, ('@', evlab[e]), ':KEY(%d) ON' % keyno])
+            elif e == 'timer':
+                setup.append(['ON TIMER(%d) GOSUB ' % rng.choice([1, 2]), ('@', evlab[e]), ':TIMER ON'])
+            elif e == 'pen':
+                setup.append(['ON PEN GOSUB ', ('@', evlab[e]), ':PEN ON'])
+            else:
+                setup.append(['ON STRIG(0) GOSUB ', ('@', evlab[e]), ':STRIG(0) ON'])
+        rng.shuffle(setup)
+        first = True
+        for s in setup:
+            pb.add(s, lab=main if first else None, role='setup')
+            first = False
+        if first:
+            pb.add(['REM main'], lab=main)
+        for _ in range(nblocks):
+            block()
     # a wait loop near the end makes armed event traps observable after the run
     if evs and not waits or R() < 0.3:
         wl = pb.lab()
@@ -1273,6 +1385,7 @@ def _gen_program(rng, tier):
         lines.append({'op': 'line', 'n': nums[i], 'parts': parts, 'role': ln['role']})
     info = {
         'waits': [labels[x] for x in waits], 'evs': evs, 'keyno': keyno, 'nums': nums,
+        'stages': [dict(st, bl=labels.get(st['bl']), wl=labels[st['wl']]) for st in stages],
         'traps': [labels[x] for x in [eh] * have_eh + [evlab[e] for e in evs]],
     }
     return lines, info
@@ -1291,7 +1404,8 @@ def _gen_events(rng, info, span):
 
 
 def gen14(rng, tier):
-    lines, info = _gen_program(rng, tier)
+    pause = rng.random() < 0.35
+    lines, info = _gen_program(rng, tier, pause)
     nums = info['nums']
     ops = list(lines)
     if rng.random() < 0.3:
@@ -1323,13 +1437,47 @@ def gen14(rng, tier):
                 out.append({'op': 'run', 'ev': _gen_events(rng, info, span)})
         return out
 
-    if rng.random() < 0.2:
+    def brk(st):
+        # Ctrl-Break while the program is in its break-wait loop (keyed by position: see _arm14)
+        if st['pause'] != 'brk':
+            return []
+        return [{'line': st['bl'], 'count': rng.randint(1, 20), 'ev': 'break'}]
+
+    if pause:
+        # RUN up to the first pause, then RENUM / CONT for every stage; events are keyed to the stage's
+        # wait loop, where the program has switched its traps on
+        stages = info['stages']
+        ops.append({'op': 'run', 'ev': _gen_events(rng, info, 10 + 2 * len(lines)) + brk(stages[0])})
+        for i, st in enumerate(stages):
+            op = renum_op()
+            if rng.random() < 0.5:
+                # likely to be accepted and to move every line
+                op = {'op': 'renum', 'new': rng.choice([None, 100, 1000, nums[-1] + rng.randint(1, 100), rng.randint(1, 9)]),
+                      'old': None, 'step': rng.choice([None, None, 1, 5, 20, rng.randint(1, 50)])}
+            ops.append(dict(op, keep=True))
+            ev = []
+            pool = list(info['evs']) + ([rng.choice(['key', 'timer', 'pen', 'strig', 'play'])] if rng.random() < 0.15 else [])
+            for e in pool:
+                if rng.random() < 0.85:
+                    ev.append({'line': st['wl'], 'count': rng.randint(1, st['n']), 'ev': e, 'key': info['keyno']})
+            if rng.random() < 0.2:
+                ev.extend(_gen_events(rng, info, 40))
+            ev.sort(key=lambda x: (x.get('at', 0), x.get('count', 0)))
+            if i + 1 < len(stages):
+                ev.extend(brk(stages[i + 1]))
+            ops.append({'op': 'cont', 'ev': ev})
+        rounds = rng.choice([0, 0, 1])
+    elif rng.random() < 0.2:
         # RENUM before the first run: pure rewrite, then behaviour
         ops.append(renum_op())
         ops.append({'op': 'run', 'ev': _gen_events(rng, info, span)})
+        rounds = None
     else:
         ops.append({'op': 'run', 'ev': _gen_events(rng, info, span)})
-    for _ in range(rng.choice([1, 1, 1, 2, 2, 3]) if tier == 'quick' else rng.randint(1, 6)):
+        rounds = None
+    if rounds is None:
+        rounds = rng.choice([1, 1, 1, 2, 2, 3]) if tier == 'quick' else rng.randint(1, 6)
+    for _ in range(rounds):
         ops.append(renum_op())
         ops.extend(probes())
     cfg = {'syntax': rng.choice(['advanced', 'advanced', 'pcjr', 'tandy'])}
@@ -1342,25 +1490,47 @@ def gen14(rng, tier):
 _IN_RE = re.compile(br' in (\d+)')
 
 
-def _fire_event(w, ev):
+def _fire_event(w, ev, tandy=False):
     from pcbasic.basic.base import scancode as sc
     kind = ev['ev']
     if kind == 'key':
         k = int(ev.get('key', 1))
         if k <= 10:
             code = sc.F1 + k - 1
-            w.inputs.pending.append(K.sig_key(u'\0' + chr(code), code, ()))
+        elif tandy and k <= 12:
+            # Tandy: KEY(11) and KEY(12) are F11 and F12, the cursor keys come after them
+            code = sc.F11 + k - 11
         else:
             code = [sc.UP, sc.LEFT, sc.RIGHT, sc.DOWN][(k - 11) % 4]
-            w.inputs.pending.append(K.sig_key(u'\0' + chr(code), code, ()))
+        w.inputs.pending.append(K.sig_key(u'\0' + chr(code), code, ()))
     elif kind == 'timer':
         w.jump_clock(3)
+    elif kind == 'play':
+        # the background music runs out
+        w.jump_clock(20)
+    elif kind == 'break':
+        w.inputs.pending.append(K.sig_break())
     elif kind == 'pen':
         w.inputs.pending.append(K.sig_pen_down(10, 10))
         w.inputs.pending.append(K.sig_pen_up())
     elif kind == 'strig':
         w.inputs.pending.append(K.sig_stick_down(0, 0))
         w.inputs.pending.append(K.sig_stick_up(0, 0))
+
+
+def _keyed_hook(keyed, last, inv, tandy):
+    """Poll hook that delivers events keyed by (original line number, n-th poll while that line is the current one)."""
+    cnt = {}
+
+    def hook(w):
+        o = inv.get(last[0])
+        if o is None:
+            return
+        cnt[o] = cnt.get(o, 0) + 1
+        for ev in keyed.get((o, cnt[o]), ()):
+            _fire_event(w, ev, tandy)
+            w.stats['keyed_events'] += 1
+    return hook
 
 
 def _arm14(run, w, case, root, do_renum, decisions):
@@ -1372,10 +1542,20 @@ def _arm14(run, w, case, root, do_renum, decisions):
     recs = {}
     renumbered = False
     void = [False]
+    stackvoid = [False]
     with w:
         d = Driver(w, devices={'C:': os.path.join(root, 'c')}, current_device='C:', syntax=cfg.get('syntax', 'advanced'))
         E = Eng(run, w, d, root)
         prev = 'start'
+        tandy = cfg.get('syntax') == 'tandy'
+        # the line that was started last (public step hook): position-keyed events are delivered at the n-th
+        # poll (statement boundary) at which that is a given line of the *original* numbering
+        last = [None]
+
+        def step(token):
+            last[0] = struct.unpack_from('<H', token, 2)[0]
+
+        d._guard('set_hook', lambda: d.s.set_hook(step))
         for i, op in enumerate(ops):
             k = op['op']
             # same clock in both arms at the start of every op
@@ -1391,21 +1571,36 @@ def _arm14(run, w, case, root, do_renum, decisions):
                 else:
                     raise K.HarnessError('C14 generator produced a line the engine rejects: %d %s -> %r' % (
                         n, ptext(op['parts']), r.errs))
-            elif k in ('run', 'err', 'goto'):
+            elif k in ('run', 'err', 'goto', 'cont'):
                 if k == 'goto' and int(op['n']) not in orig:
                     continue
                 E.room(25)
+                keyed = {}
                 for ev in op.get('ev', []):
-                    w.at_poll(int(ev['at']), (lambda e: lambda ww: _fire_event(ww, e))(ev))
+                    if ev.get('line') is not None:
+                        keyed.setdefault((int(ev['line']), int(ev.get('count', 1))), []).append(ev)
+                    else:
+                        w.at_poll(int(ev['at']), (lambda e: lambda ww: _fire_event(ww, e, tandy))(ev))
                 if k == 'run':
                     cmd = b'RUN'
+                elif k == 'cont':
+                    cmd = b'CONT'
                 elif k == 'err':
                     cmd = b'ERROR %d' % int(op['code'])
                 else:
                     cmd = b'F%%=0:W%%=0:GOTO %d' % orig[int(op['n'])]
-                r = E.x(cmd, poll_cap=4000)
+                last[0] = None
+                if keyed:
+                    w.poll_hook = _keyed_hook(keyed, last, {c: o for o, c in orig.items()}, tandy)
+                try:
+                    r = E.x(cmd, poll_cap=4000)
+                finally:
+                    w.poll_hook = None
                 cancel_scheduled(w)
-                recs[i] = {'out': r.out, 'inv': {c: o for o, c in orig.items()}, 'void': void[0]}
+                if k == 'run':
+                    # RUN drops the stacks in both arms
+                    stackvoid[0] = False
+                recs[i] = {'out': r.out, 'inv': {c: o for o, c in orig.items()}, 'void': void[0] or stackvoid[0]}
             elif k == 'renum':
                 if any((op.get(f) or 0) > MAXLINE for f in ('new', 'old', 'step')):
                     # not a line number: a syntax matter, outside this check
@@ -1415,9 +1610,19 @@ def _arm14(run, w, case, root, do_renum, decisions):
                 tl = [t for v in M.lines.values() if v.get('role') == 'setup' for t in prefs(v['parts'])]
                 o_ = op.get('old') or 0
                 trapcls = (any(t < o_ for t in tl), any(t >= o_ for t in tl))
+                keep = bool(op.get('keep'))
                 if do_renum:
                     text = _renum_text(op)
                     before = M.listing()
+                    if keep:
+                        # RENUM in a pause that is followed by CONT: the counterpart in arm B is "do nothing".
+                        # The engine also drops the GOSUB/FOR/WHILE stacks at RENUM, which the property neither
+                        # demands nor forbids: where that could show (a pause that is not at main level) nothing
+                        # is compared afterwards. Engine state is read here only to decide that, never to judge.
+                        it = d.s._impl.interpreter
+                        if it.gosub_stack or it.for_stack or it.while_stack:
+                            stackvoid[0] = True
+                            run.probe('pause_not_at_main_level')
                     try:
                         r = E.x(text)
                     except EngineCrash as e:
@@ -1486,6 +1691,9 @@ def _arm14(run, w, case, root, do_renum, decisions):
                         M.apply_renum(mp)
                         orig = {o: mp.get(c, c) for o, c in orig.items()}
                         renumbered = True
+                        if not keep:
+                            # arm B drops the stacks here as well (MERGE)
+                            stackvoid[0] = False
                         if any(ref in M.lines for ref, _ in plan['missing']):
                             # a dangling reference now names a real line: the renumbered program is
                             # entitled to behave differently from here on
@@ -1505,7 +1713,7 @@ def _arm14(run, w, case, root, do_renum, decisions):
                 else:
                     dec = decisions.get(i)
                     if dec is True:
-                        r = E.x(b'MERGE "C:EMPTY.BAS"')
+                        r = E.x(b'REM' if keep else b'MERGE "C:EMPTY.BAS"')
                         renumbered = True
                     else:
                         # a rejected RENUM is an Illegal function call in direct mode
@@ -1549,17 +1757,20 @@ def run14(case):
                     run.probe('error_trap_followed')
                 if kind == 'goto' and b'EV' in bo:
                     run.probe('event_trap_followed')
+                if kind == 'cont' and b'EV' in bo:
+                    run.probe('event_trap_followed_after_cont')
             if a != bo:
                 if kind == 'renum':
                     sig = 'behaviour:rejected-renum-differs-from-illegal-function-call'
                 elif kind == 'err':
                     sig = 'trap-follow:error-trap:direct-mode-ERROR-after-renum'
-                elif kind == 'goto':
+                elif kind in ('goto', 'cont'):
                     # name the first handler that ran in the original but not after RENUM
-                    hb = re.findall(br'EV(key|timer|pen|strig)', bo)
-                    ha = re.findall(br'EV(key|timer|pen|strig)', a)
+                    hb = re.findall(_EV_MARK, bo)
+                    ha = re.findall(_EV_MARK, a)
                     lost = [h for h in hb if h not in ha]
-                    sig = 'trap-follow:event-trap:%s' % (u(lost[0]) if lost else 'output-differs')
+                    sig = 'trap-follow:%s:%s' % ('event-trap' if kind == 'goto' else 'cont-after-renum-in-pause',
+                                                 u(lost[0]) if lost else 'output-differs')
                 else:
                     sig = 'behaviour:run-output-differs' + (':with-events' if evk else '')
                 if not any_renum:
